@@ -370,12 +370,26 @@ def translate_slots(lines):
             break
 
     def cond_term(t):
-        t = t.replace('"', "'")
-        tbl = {"name == 'K' and self.fixed_K_prior == 0": "(is_K nm && (fixedK =? 0))", "name == 'K'": "(is_K nm)", "name == 'v0'": "(is_v0 nm)",
-               "name == 'K' and self.fixed_K_prior == 1": "(is_K nm && (fixedK =? 1))"}
-        if t not in tbl:
+        """boolean combinations (and / or / not, `in` over a literal tuple) of `name == '<K|v0>'` and `self.fixed_K_prior == <int>`"""
+        def go(n):
+            if isinstance(n, ast.BoolOp):
+                op = " && " if isinstance(n.op, ast.And) else " || "
+                return "(" + op.join(go(v) for v in n.values) + ")"
+            if isinstance(n, ast.UnaryOp) and isinstance(n.op, ast.Not):
+                return f"(negb {go(n.operand)})"
+            if isinstance(n, ast.Compare) and len(n.ops) == 1:
+                l, op, r = ast.unparse(n.left), n.ops[0], n.comparators[0]
+                if l == "name" and isinstance(op, (ast.Eq, ast.NotEq)) and isinstance(r, ast.Constant) and r.value in ("K", "v0"):
+                    base = "(is_K nm)" if r.value == "K" else "(is_v0 nm)"
+                    return base if isinstance(op, ast.Eq) else f"(negb {base})"
+                if l == "name" and isinstance(op, ast.In) and isinstance(r, (ast.Tuple, ast.List)) and all(
+                        isinstance(e, ast.Constant) and e.value in ("K", "v0") for e in r.elts) and r.elts:
+                    return "(" + " || ".join("(is_K nm)" if e.value == "K" else "(is_v0 nm)" for e in r.elts) + ")"
+                if l == "self.fixed_K_prior" and isinstance(op, (ast.Eq, ast.NotEq)) and isinstance(r, ast.Constant) and isinstance(r.value, int):
+                    base = f"(fixedK =? {r.value})"
+                    return base if isinstance(op, ast.Eq) else f"(negb {base})"
             raise Untranslatable(f"__init__: unrecognised slot condition `{t}`")
-        return tbl[t]
+        return go(ast.parse(t, mode="eval").body)
 
     def effects(stmts):
         """(index term for mu or None, index term for Lambda or None, sets default-K scalars?)"""
